@@ -67,7 +67,7 @@ def gen_flows():
                                       (2, ['http://host', '?query']), (3, ['http://[/dev/x'])):
                     for path in paths:
                         for comp in comps + ([[1, 500, 2]] if method == 'GET' else []):
-                            for reason in (['boom'] if comp[0] else ['boom', 'b€m']):
+                            for reason in (['boom'] if comp[0] else ['boom', 'b\u20acm']):
                                 handlers.append({'method': method, 'read': read, 'dispatcher': disp, 'pclass': pclass, 'path': path,
                                                  'component': comp, 'reason': reason})
     return posts, gets, handlers
@@ -159,7 +159,7 @@ def run(ctx):  # noqa: C901, PLR0912, PLR0915
     # ------------------------------------------------------------ reader stream (malformed-heavy, short reads)
     probe = ctx.impl('c17_impl', {})
     avail = probe.get('available_encodings', ['gzip'])
-    rd_cases = [c17.gen_reader_case(rng, avail, False, malformed_share=0.85) for _ in range(ctx.n(350, 8000))]
+    rd_cases = [c17.gen_reader_case(rng, avail, False, malformed_share=0.85) for _ in range(ctx.n(300, 6000))]
     for c in rd_cases:                       # more short reads than in C17
         if not c['caps'] and rng.random() < 0.4:
             c['caps'] = [rng.choice([1, 1, 2, 3, 7]) for _ in range(rng.randint(1, 120))]
@@ -208,8 +208,8 @@ def run(ctx):  # noqa: C901, PLR0912, PLR0915
 
     ctx.log(f'reader done at {__import__("time").time() - ctx.t0:.0f}s')
     # ------------------------------------------------------------ world stream
-    n_worlds = ctx.n(1, 12)
-    per_world = ctx.n(1800, 8000)
+    n_worlds = ctx.n(1, 6)
+    per_world = ctx.n(1200, 6000)
     traces = []
     meta = []
     for w in range(n_worlds):
